@@ -531,6 +531,9 @@ INDEX_Q = [
     ((2, 3), "(Ellipsis,-1)"), ((2, 3), "(None,1)"), ((2, 3), "([0,1,0],[2,2,0])"), ((2, 3), "([1,1],)"),
     ((2, 3), "(slice(None),[0,0])"), ((2, 3), "np.array([[True,False,True],[False,False,True]])"),
     ((2, 3), "(slice(None,None,-1),slice(None,None,-2))"), ((2, 3), "(-1,slice(1,None))"),
+    # one element addressed by a non-negative and a negative index at once
+    ((3,), "[0,2,-3]"), ((3,), "np.array([-1,2])"), ((2, 3), "(slice(None),[1,-2])"), ((2, 3), "([0,-2],[2,-1])"),
+    ((2, 3), "([1,-1,1],)"),
 ]
 INDEX_T = INDEX_Q + [
     ((2, 2, 3), "(0,Ellipsis,1)"), ((2, 2, 3), "(slice(None),None,1,slice(None,None,2))"),
